@@ -48,7 +48,9 @@ MANIFEST = {
             "translated statement by statement (Gen/EpisodeRegs.lean) into a statement language whose interpreter raises wherever the "
             "Python statement can (d[k], d.pop(k), remove_request); on every node reachable in C13's registries model by any operation "
             "sequence the translated body returns for every name and equals C13's Node.uninstall (C01_uninstall_total, "
-            "C01_uninstall_refines; C01_tidied_uninstall_raises shows the direct-pop variant raising on two applications that share a "
+            "C01_uninstall_refines; SoftwareManager.install is translated too, its only raising statement is the eviction through uninstall, so it returns "
+            "for every class and configuration on every reachable node given that constructors and lifecycle calls return (C01_install_total, "
+            "C01_gen_install_body); C01_tidied_uninstall_raises shows the direct-pop variant raising on two applications that share a "
             "(port, protocol) key). Rig family (e) CO-LOCATED PAIRS: for every action type that names a node and a target inside it, every "
             "ordered pair of distinct targets of one node / folder / access list (applications incl. every installable one, installed at run "
             "time by a preceding step; services; files; folders; NICs; users; ACL positions) - all same-type pairs of the types that change "
